@@ -1,7 +1,7 @@
 (* C12 - Optimal partitioning returns a global optimum for the requested direction. *)
 From Coq Require Import List Arith QArith Bool Lia Lqa.
 Import ListNotations.
-From TL Require Import Model.Partition Proofs.Partition_opt Proofs.Partition_dp Proofs.Partition_main Proofs.Refuted.
+From TL Require Import Model.Partition Proofs.Partition_opt Proofs.Partition_dp Proofs.Partition_main Proofs.Partition_seg Proofs.Refuted.
 Open Scope Q_scope.
 
 (* For every N >= 2, every cost table and both directions: the result is l ++ [N-1] with l a strictly increasing
@@ -12,6 +12,17 @@ Theorem C12_optimal_partition (m : bool) (N : nat) (cost : tab Q) : (2 <= N)%nat
     forall l', starts 0 (N - 1) l' -> dle m (chain_cost cost r) (chain_cost cost (l' ++ [(N - 1)%nat])).
 Proof. exact (optimal_partition_correct m N cost). Qed.
 Print Assumptions C12_optimal_partition.
+
+(* The delegating functions: optimalSegmentation (and optimalSimplification, which keeps the fixes of its list) builds the matrix
+   C[i,j] = cost(track, i, j-1), symmetrises it and calls optimalPartition; hence, for every track of n >= 3 fixes, every cost function and both
+   directions, the list returned runs from 0 to n-2 and optimises the documented criterion - the sum of cost(a, b-1) over its consecutive pairs -
+   among all such lists. *)
+Theorem C12_segmentation_optimal (m : bool) (n : nat) (cost : nat -> nat -> Q) : (3 <= n)%nat ->
+  let r := optimal_segmentation m n cost in
+  exists l, r = l ++ [(n - 2)%nat] /\ starts 0 (n - 2) l /\
+    forall l', starts 0 (n - 2) l' -> dle m (seg_cost cost r) (seg_cost cost (l' ++ [(n - 2)%nat])).
+Proof. exact (optimal_segmentation_correct m n cost). Qed.
+Print Assumptions C12_segmentation_optimal.
 
 (* The rule of the code before its repair (both tests read the mode *constants*, so it always maximised) refutes the
    statement for minimisation: kept as the record of the finding. *)
